@@ -15,7 +15,7 @@ S = os.path.join(V, "seeded")
 
 
 def sh(cmd, **kw):
-    return subprocess.run(cmd, capture_output=True, text=True, **kw)
+    return subprocess.run(cmd, capture_output=True, text=True, errors="replace", **kw)
 
 
 def run_one(sid, in_repo, tier):
@@ -52,7 +52,7 @@ def run_one(sid, in_repo, tier):
     try:
         for c in checks:
             t0 = time.time()
-            r = subprocess.run([os.path.join(V, "check"), c, "--tier", tier], capture_output=True, text=True, env=env, cwd=V)
+            r = subprocess.run([os.path.join(V, "check"), c, "--tier", tier], capture_output=True, text=True, errors="replace", env=env, cwd=V)
             out = r.stdout + r.stderr
             sigs = [l.split("signature:", 1)[1].strip() for l in out.splitlines() if l.startswith("  signature:")]
             last = [l for l in out.splitlines() if l.startswith(("HELD", "VIOLATION", "INCONCLUSIVE", "KNOWN-FINDING"))]
